@@ -36,8 +36,8 @@ end SqiProofs.Challenge
 namespace SqiProofs.Drbg
 open SqiModel.Drbg
 
-theorem genLoop_length (E : List UInt8 → List UInt8 → List UInt8) (hE : ∀ k v, (E k v).length = 16)
-    (key : List UInt8) (fuel xlen : Nat) (v : List UInt8) (hf : xlen < fuel) :
+theorem genLoop_length (E : List UInt8 → List UInt8 → List UInt8) (key : List UInt8) (hE : ∀ v, (E key v).length = 16)
+    (fuel xlen : Nat) (v : List UInt8) (hf : xlen < fuel) :
     (Model.genLoop E key fuel xlen v).1.length = xlen := by
   induction fuel generalizing xlen v with
   | zero => omega
@@ -51,10 +51,10 @@ theorem genLoop_length (E : List UInt8 → List UInt8 → List UInt8) (hE : ∀ 
     · simp [h0]; omega
 
 /-- `randombytes(x, n)` writes exactly n bytes -/
-theorem randombytes_length (E : List UInt8 → List UInt8 → List UInt8) (hE : ∀ k v, (E k v).length = 16)
-    (st : Model.St) (n : Nat) : (Model.randombytes E st n).1.length = n := by
+theorem randombytes_length (E : List UInt8 → List UInt8 → List UInt8) (st : Model.St) (hE : ∀ v, (E st.key v).length = 16)
+    (n : Nat) : (Model.randombytes E st n).1.length = n := by
   unfold Model.randombytes
   simp only
-  exact genLoop_length E hE st.key (n + 1) n st.v (by omega)
+  exact genLoop_length E st.key hE (n + 1) n st.v (by omega)
 
 end SqiProofs.Drbg
